@@ -484,7 +484,7 @@ class Representation:
         else:
             adj_states = automaton.in_dict[state]
 
-        if len(adj_states) == 0 and not as_start:
+        if len(adj_states) == 0 and not as_start and not maxlen:
             if with_words:
                 return (empty_arr, [])
             return empty_arr
